@@ -244,6 +244,14 @@ size_t varintFloatEncode(uint8_t *output, const double *values,
             } else {
                 /* Reduced precision: truncate from 53 bits to target */
                 mantissas[i] = truncateMantissa(mantissas[i], 53, mant_bits);
+                if (mantissas[i] >> mant_bits) {
+                    /* Rounding carried out of the top bit (1.11..1 became
+                     * 10.0): renormalize to 1.0 * 2^(exponent + 1). An
+                     * exponent above the largest finite one decodes as
+                     * infinity. */
+                    mantissas[i] >>= 1;
+                    exponents[i]++;
+                }
             }
         }
     }
